@@ -417,6 +417,10 @@ class C11(Prop):
             c.append({"name": "regress-weibull-grid-tau%g" % tau, "sticky": 1,
                       "meta": {"law": "weibull", "mu": 5.0, "lambda": 0.01, "tau": tau, "src": "grid", "mod": "none"},
                       "ops": ["data xs=" + ",".join(d(x) for x in g), "fit kind=weibull"]})
+        for k, xs in enumerate(([9452.84, 9454.4, 9494.43], [5.00574, 5.02829, 5.00034, 5.00043, 5.00288], [-20.0527, -20.0014], [4385.46, 4371.19],
+                                [-20.0164, -19.9915, -19.9491, -19.9521, -20.0091, -20.0319, -20.0337, -19.9529], [-19.9188, -19.9284, -19.9822, -19.9898])):
+            c.append({"name": "gumbel-bisection-fallback-%d" % k, "sticky": 1, "meta": {"law": "none", "mod": "cluster"}, "ops": [
+                "data xs=" + ",".join(d(x) for x in xs), "fit kind=gumbel", "fit kind=gumbelcens z=2 a=" + d(min(xs) - 0.01), "fit kind=gumbelcens z=0 a=" + d(min(xs) - 1.0)]})
         c.append({"name": "regress-fitcensored-infinite-variance", "sticky": 1, "meta": {"law": "none", "mod": "degenerate"}, "ops": [
             "data xs=" + ",".join(d(x) for x in [1e160, -1e160, 1.0]), "fit kind=gumbelcens z=0 a=" + d(-2e160), "fit kind=gumbel"]})
         # repaired in bad2f4e (brent() on a NaN interval): must answer a documented failure status, not hang
@@ -646,11 +650,23 @@ class C11(Prop):
                             "fit kind=gumbeltrunc a=%s" % d(phi)]
                     cases.append({"name": "fit%d-gumbel-cens%.1f-n%d-%s" % (i, frac, n, meta["mod"]), "ops": cops, "sticky": 1,
                                   "meta": dict(meta, censfrac=frac, z=z, phi=phi)})
+        # tightly clustered small samples around an offset: Newton/Raphson misses |f| < 1e-5 in 100 steps, the bisection fallback runs
+        for j in range(max(6, count // 12)):
+            n = rng.choice([2, 2, 3, 4, 5, 8])
+            off = rng.choice([-20.0, 5.0, 100.0, 4385.0, 52326.0]); sc = off * 0 + abs(off) * 10 ** rng.uniform(-3.5, -2) if rng.random() < 0.7 else 10 ** rng.uniform(-2, 2)
+            xs = [off + sc * rng.gauss(0, 1) for _ in range(n)]
+            if rng.random() < 0.3: xs[0] = off + sc * rng.choice([50, -50])
+            lo = min(xs)
+            ops = ["data xs=" + ",".join(d(x) for x in xs), "fit kind=gumbel", "fit kind=gumbelcens z=%d a=%s" % (rng.choice([0, 1, 5]), d(lo - sc)),
+                   "fit kind=gumbelloc a=%s" % d(1 / sc), "fit kind=exp"]
+            cases.append({"name": "fit-cluster-%d" % j, "ops": ops, "sticky": 1, "meta": {"law": "none", "mod": "cluster"}})
         # degenerate inputs: termination / documented failure status
         for xs in ([], [1.0], [2.0, 2.0], [1.0, 2.0], [0.0, 0.0, 0.0, 1e-300], [1e150, 2e150, 3e150], [-5.0, -4.0, -3.0], [1e-310, 2e-310, 5e-310]):
             # n = 0 is only documented for the exponential and Gumbel fits (eslEINVAL); the others require n > 0
             ks = ["exp", "expscale", "gumbel", "gumbelloc", "gumbeltrunc", "weibull", "sxp", "gamma", "lognormal"] if xs else ["exp", "gumbel", "gumbelloc", "gumbeltrunc"]
             ops = ["data xs=" + (",".join(d(x) for x in xs) if xs else "-")] + self.fit_ops(xs, rng, ks)
+            phi0 = (min(xs) - 1.0) if xs else 0.0
+            ops += ["fit kind=gumbelcens z=%d a=%s" % (zz, d(phi0)) for zz in (0, 3)] + ["fit kind=gumbelcensloc z=2 a=%s b=%s" % (d(phi0), d(0.693))]
             cases.append({"name": "fit-degenerate-%d" % len(cases), "ops": ops, "sticky": 1, "meta": {"law": "none", "mod": "degenerate"}})
         return cases
 
@@ -688,6 +704,57 @@ class C11(Prop):
                         "meta": {"law": law, "mu": mu, "lambda": lam, "tau": tau, "src": src, "mod": "none", "binned": True}})
         return out
 
+    def count_cases(self, ctx, count):
+        """esl_lognormal_FitCountHistogram / esl_gam_FitCountHistogram against the complete-data fit of the expanded data set"""
+        rng = ctx.rng; d = dbits; out = []
+        for j in range(count):
+            n = rng.choice([3, 5, 12, 40, 120])
+            mu = rng.choice([0, 0, 0, 1, 3])
+            peak = rng.uniform(mu + 1, n); wdt = rng.uniform(0.5, n / 2)
+            c = [0.0] * (n + 1)
+            for i in range(mu + 1, n + 1):
+                c[i] = float(max(0, int(rng.choice([5, 40, 300]) * math.exp(-((i - peak) / wdt) ** 2) + rng.choice([0, 0, 1]))))
+            bad = rng.random()
+            if bad < 0.08: c[0] = 1.0
+            elif bad < 0.14: c[rng.randrange(1, n + 1)] = -1.0
+            elif bad < 0.2: c = [0.0] * (n + 1)
+            mug = float(mu) if rng.random() > 0.06 else mu + 0.5
+            xs = [float(i) for i in range(1, n + 1) for _ in range(int(c[i])) if c[i] > 0]
+            ops = ["fitcount kind=lognormal cs=" + ",".join(d(x) for x in c), "fitcount kind=gamma a=%s cs=%s" % (d(mug), ",".join(d(x) for x in c)),
+                   "data xs=" + (",".join(d(x) for x in xs) if xs else "-")]
+            if xs: ops += ["fit kind=lognormal", "fit kind=gamma a=" + d(float(mu))]
+            out.append({"name": "count%d" % j, "ops": ops, "sticky": 0, "meta": {"law": "none", "mod": "count", "mu": mu, "mug": mug, "c": c}})
+        return out
+
+    def monitor_count(self, case, ops, out):
+        F = lambda w: Failure("monitor", w)
+        m = case["meta"]; c = m["c"]; res = {}
+        for op, l in zip(ops, out):
+            w = l.split(); a = kv(op)
+            if op.startswith("fitcount"): res["c" + a["kind"]] = w
+            elif op.startswith("fit "): res["x" + a["kind"]] = w
+        tot = sum(x for x in c[1:] if x > 0)
+        neg = any(x < 0 for x in c[1:])
+        distinct = sum(1 for x in c[1:] if x > 0) >= 2          # two distinct values: the property's quantifier
+        for kind in ("lognormal", "gamma"):
+            w = res.get("c" + kind)
+            if not w: continue
+            invalid = neg or tot <= 0 or (kind == "lognormal" and c[0] != 0) or \
+                      (kind == "gamma" and (m["mug"] != math.floor(m["mug"]) or any(x != 0 for x in c[:int(m["mug"]) + 1]) or not any(x > 0 for x in c[int(m["mug"]) + 1:])))
+            if invalid:
+                if w[0] != "einval": return F("esl_%s_FitCountHistogram on invalid counts returned %s (documented eslEINVAL)" % (kind, w[0]))
+                continue
+            x = res.get("x" + kind)
+            if w[0] != "ok":
+                if x and x[0] == "ok" and tot >= 3 and distinct: return F("esl_%s_FitCountHistogram failed with %s where the fit of the same %d values succeeds" % (kind, w[0], int(tot)))
+                continue
+            if x and x[0] == "ok" and m["mug"] == m["mu"] and tot >= 3 and distinct:
+                for pc, px in zip(w[1:], x[1:]):
+                    vc, vx = fbits(pc), fbits(px)
+                    if math.isfinite(vx) and abs(vc - vx) > 1e-7 * max(abs(vx), 1e-300) + 1e-12:
+                        return F("esl_%s_FitCountHistogram returned %r, the complete-data fit of the expanded data returns %r" % (kind, [fbits(t) for t in w[1:]], [fbits(t) for t in x[1:]]))
+        return None
+
     def cases(self, ctx):
         rng = ctx.rng
         nh = 700 if ctx.tier == "quick" else 4000
@@ -696,6 +763,7 @@ class C11(Prop):
         out += self.fit_cases(ctx, nf)
         nfit = len(out) - nh
         out += self.binned_cases(ctx, 60 if ctx.tier == "quick" else 300)
+        out += self.count_cases(ctx, 40 if ctx.tier == "quick" else 400)
         self._dist = {"hist_cases": nh, "fit_cases": nfit, "binned_fit_cases": len(out) - nh - nfit}
         return out
 
@@ -714,6 +782,8 @@ class C11(Prop):
                 return Failure("fault", "implementation died: %s at %r" % (l, op[:60]))
         if ops and ops[0].startswith("hnew"):
             return self.monitor_hist(case, ops, out)
+        if case.get("meta", {}).get("mod") == "count":
+            return self.monitor_count(case, ops, out)
         if ops and ops[0].startswith("data"):
             return self.monitor_fit(case, ops, out)
         return None
@@ -815,7 +885,13 @@ class C11(Prop):
         w = l.split()
         st = w[0]
         if st not in ("ok", "einval", "enohalt", "erange", "enoresult"): return "%s returned the undocumented status %s" % (name, st)
-        if st != "ok": return None
+        own = meta.get("law") in {"hexpfit": ("exp",), "hweifit": ("weibull", "exp"), "hgamfit": ("gamma", "exp"), "hsxpfit": ("sxp", "exp")}[name]
+        if st != "ok":
+            # on binned data of its own law (>= 300 values, >= 5 occupied bins, complete data) a binned fit has to succeed
+            nocc = 0 if o["obs"] == "-" else o["obs"].count(":")
+            if own and o["ds"] == "complete" and nocc >= 5 and int(o["n"]) >= 300:
+                return "%s failed with %s on %s binned values of %s(mu=%r, lambda=%r, tau=%r)" % (name, st, o["n"], meta["law"], meta["mu"], meta["lambda"], meta["tau"])
+            return None
         ps = [fbits(t) for t in w[1:]]
         bmin, bw = fbits(o["bmin"]), fbits(o["w"])
         obs = {}
@@ -1009,7 +1085,7 @@ class C11(Prop):
 
     def check_fit(self, kind, a, xs, ps, meta):
         n = len(xs)
-        rec = self.check_recovery(kind, a, xs, ps, meta)
+        rec = self.check_recovery(kind, a, xs, ps, meta) or self.check_vs_truth(kind, a, xs, ps, meta)
         if rec: return rec
         d1 = 1e-3
         def slack(v): return 1e-9 * (abs(v) + n) + 1e-12
@@ -1158,9 +1234,48 @@ class C11(Prop):
             return "%s fit on the exact %d-point quantile grid of (mu=%r, lambda=%r, tau/alpha=%r) returned %r" % (kind, n, mu0, lam0, tau0, ps)
         return None
 
+    # a maximum-likelihood fit of data drawn from (or laid out on the quantile grid of) a law of its own family cannot have a smaller
+    # log-likelihood than the generating parameters themselves; tolerated shortfall relative to |logL|+n (calibrated, ~5x clean-tree maximum)
+    TRUTH_TOL = {"gev": 6e-3, "gamma": 1e-9, "gumbeltrunc": 2e-2, "gumbel": 1e-9, "gumbelcens": 1e-9, "exp": 1e-12}
+
+    def check_vs_truth(self, kind, a, xs, ps, meta):
+        n = len(xs)
+        law = meta.get("law")
+        if meta.get("mod") != "none" or n < 30: return None
+        mu0, lam0, tau0 = meta.get("mu"), meta.get("lambda"), meta.get("tau")
+        try:
+            if kind == "gev" and law == "gev":
+                fit, truth = ll_gev(xs, *ps), ll_gev(xs, mu0, lam0, tau0)
+            elif kind == "gamma" and law == "gamma" and fbits(a["a"]) == mu0:
+                fit, truth = ll_gamma(xs, mu0, ps[0], ps[1]), ll_gamma(xs, mu0, lam0, tau0)
+            elif kind == "gumbel" and law == "gumbel" and "censfrac" not in meta:
+                if any(abs(lam0 * x) > 600 for x in xs) or any(abs(ps[1] * x) > 600 for x in xs): return None
+                fit, truth = ll_gumbel(xs, ps[0], ps[1]), ll_gumbel(xs, mu0, lam0)
+            elif kind == "gumbelcens" and law == "gumbel" and "censfrac" in meta:
+                z, phi = int(a["z"]), fbits(a["a"])
+                if any(abs(lam0 * x) > 600 for x in xs) or any(abs(ps[1] * x) > 600 for x in xs): return None
+                fit, truth = ll_gumbel(xs, ps[0], ps[1], z, phi), ll_gumbel(xs, mu0, lam0, z, phi)
+            elif kind == "gumbeltrunc" and law == "gumbel" and meta.get("censfrac", 1.0) <= 0.3:
+                phi = fbits(a["a"])
+                if any(abs(lam0 * x) > 600 for x in xs): return None
+                fit, truth = ll_gumbel_trunc(xs, ps[0], ps[1], phi), ll_gumbel_trunc(xs, mu0, lam0, phi)
+            elif kind == "exp" and law == "exp" and min(xs) >= mu0:
+                fit, truth = ll_exp(xs, ps[0], ps[1]), ll_exp(xs, mu0, lam0)
+            else:
+                return None
+        except (ValueError, OverflowError, ZeroDivisionError):
+            return None
+        if not (math.isfinite(fit) and math.isfinite(truth)): return None
+        gap = (truth - fit) / (abs(truth) + n)
+        cal = self.__dict__.setdefault("_truth", {}); cal[kind] = max(cal.get(kind, -1.0), gap)
+        if gap > self.TRUTH_TOL[kind]:
+            return "%s fit (n=%d): logL at the fit %r is BELOW logL %r at the generating parameters (mu=%r, lambda=%r, tau=%r)" % (kind, n, fit, truth, mu0, lam0, tau0)
+        return None
+
     def extra_evidence(self, ctx):
         return {"input_distribution": getattr(self, "_dist", {}), "optimiser_fit_max_relative_logL_gap": getattr(self, "_calib", {}),
-                "max_recovery_error_on_quantile_grids": getattr(self, "_rec", {})}
+                "max_recovery_error_on_quantile_grids": getattr(self, "_rec", {}),
+                "max_relative_logL_shortfall_vs_generating_parameters": getattr(self, "_truth", {})}
 
 
 SPEC = C11()
